@@ -9,6 +9,8 @@ import (
 	"sort"
 
 	"pgregory.net/rapid"
+
+	"nriverif/gen"
 )
 
 // A case is written in terms of small symbolic operations; the harness renders them to
@@ -26,6 +28,10 @@ type Op struct {
 	Fam string `json:"fam"`
 	Key string `json:"key,omitempty"`
 	Act string `json:"act"`
+	// Rev renders a reset of a list family (env, mount, dev) as [set, removal marker] instead
+	// of [removal marker, set]; the meaning is the same (a set wins over a removal of the
+	// same key within one response whatever the order).
+	Rev bool `json:"rev,omitempty"`
 }
 
 // Upd is one container update requested by a plugin.
@@ -171,6 +177,9 @@ func genOp(t *rapid.T, used map[string]bool) (Op, bool) {
 		op.Fam = rapid.SampledFrom(removableFams).Draw(t, "fam")
 		op.Key = rapid.SampledFrom(keysOf(op.Fam)).Draw(t, "key")
 		op.Act = rapid.SampledFrom([]string{"set", "set", "del", "reset"}).Draw(t, "act")
+		if op.Act == "reset" && op.Fam != "ann" {
+			op.Rev = rapid.Bool().Draw(t, "rev")
+		}
 	case 4, 5:
 		op.Fam = rapid.SampledFrom(keyedSetFams).Draw(t, "fam")
 		op.Key = rapid.SampledFrom(keysOf(op.Fam)).Draw(t, "key")
@@ -301,24 +310,24 @@ func forceCollision(t *rapid.T, c *Case, i, j int) {
 	if !viaUpdate {
 		// adjustment path: pick a family/key, make both plugins set it
 		var op Op
-		switch rapid.IntRange(0, 5).Draw(t, "cfamclass") {
-		case 0, 1:
-			op.Fam = rapid.SampledFrom(removableFams).Draw(t, "cfam")
-		case 2, 3:
-			op.Fam = rapid.SampledFrom(keyedSetFams).Draw(t, "cfam")
-		case 4:
-			op.Fam = rapid.SampledFrom([]string{"args", "cgroups", "oom"}).Draw(t, "cfam")
-		default:
-			op.Fam = rapid.SampledFrom(scalarFams).Draw(t, "cfam")
-		}
+		// all 29 item kinds of the adjustment path, uniformly
+		all := append(append(append([]string{}, removableFams...), keyedSetFams...), "args", "cgroups", "oom")
+		all = append(all, scalarFams...)
+		op.Fam = gen.Pick(t, "cfam", all)
 		op.Key = rapid.SampledFrom(keysOf(op.Fam)).Draw(t, "ckey")
 		op.Act = "set"
-		for _, idx := range []int{i, j} {
+		for n, idx := range []int{i, j} {
 			s := &c.Chain[idx]
+			o := op
+			if n == 0 && has(removableFams, op.Fam) && rapid.IntRange(0, 3).Draw(t, "cfirstreset") == 0 {
+				// the first collider may itself remove-then-set (either list order): it still owns the item
+				o.Act = "reset"
+				o.Rev = op.Fam != "ann" && rapid.Bool().Draw(t, "crev")
+			}
 			if k := hasOp(s, op.Fam, op.Key); k >= 0 {
-				s.Ops[k].Act = "set"
+				s.Ops[k] = o
 			} else {
-				s.Ops = append(s.Ops, op)
+				s.Ops = append(s.Ops, o)
 			}
 		}
 		return
@@ -329,7 +338,7 @@ func forceCollision(t *rapid.T, c *Case, i, j int) {
 		tg = append(tg, "SELF", "SELF")
 	}
 	target := rapid.SampledFrom(tg).Draw(t, "ctarget")
-	field := rapid.SampledFrom(allResFields()).Draw(t, "cfield")
+	field := gen.Pick(t, "cfield", allResFields())
 	for _, idx := range []int{i, j} {
 		s := &c.Chain[idx]
 		found := false
@@ -361,10 +370,12 @@ func forceRelease(t *rapid.T, c *Case) {
 	i := rapid.IntRange(0, n-2).Draw(t, "ri")
 	j := rapid.IntRange(i+1, n-1).Draw(t, "rj")
 	setOp := func(s *Script, act string) {
+		rev := act == "reset" && fam != "ann" && fam != "args" && rapid.Bool().Draw(t, "rrev")
 		if k := hasOp(s, fam, key); k >= 0 {
 			s.Ops[k].Act = act
+			s.Ops[k].Rev = rev
 		} else {
-			s.Ops = append(s.Ops, Op{Fam: fam, Key: key, Act: act})
+			s.Ops = append(s.Ops, Op{Fam: fam, Key: key, Act: act, Rev: rev})
 		}
 	}
 	setOp(&c.Chain[i], "set")
